@@ -4,7 +4,10 @@ The truth condition of the predicate's result is computed from the code as a ter
 
     exists v in <iterable>: body      any(gen) / for-loop with early return / first-match helper + `is not None` / next(gen, None) /
                                       truthiness of a list comprehension / flag loop / for-else
-    match(kind, pattern, subject)     re.match / re.search / re.fullmatch / <pattern>.match / .search / .fullmatch
+    match(kind, pattern, subject)     re.match / re.search / re.fullmatch / <pattern>.match / .search / .fullmatch; kind "apply" = an element
+                                      of the collection called as a function (`m(s)`): the collection must then hold the bound methods
+                                      `re.compile(x).match` (re.match(compiled, s) == compiled.match(s)); `.search` / `.fullmatch`
+                                      kept there are VIOLATIONs
     and / or / not / const / atom(text)
 
 where pattern and subject are *origins*: the predicate's parameter, str(parameter), a quantified variable, an attribute of self, or
@@ -13,8 +16,8 @@ overloads are selected by the argument's type.  Required shape:
 
     str overload     exists p in self.<A>: match("match", p, <the parameter>)
     Path overload    the same with subject str(<the parameter>)
-    self.<A>         built in __init__ as  re.compile(x) for *every* x of the configured patterns (comprehension / tuple(map(...)) /
-                     append loop), no flags, no filter
+    self.<A>         built in __init__ as  re.compile(x)  [or re.compile(x).match, see "apply"]  for *every* x of the configured patterns
+                     (comprehension / tuple(map(...)) / append loop), no flags, no filter
 
 Anything else is reported: a different match kind (not start-anchored / full match), another subject (`obj.name`, derived strings),
 skipped patterns, flags -> VIOLATION naming the construct; a shape the term language cannot express -> undecided.
@@ -335,6 +338,12 @@ class Terms:
             po = self.origin(f.value, ctx)
             if po[0] in ("var", "attr") or (po[0] == "other" and not self._repo_callees(e, ctx)):
                 return ("match", f.attr, po, self.origin(e.args[0], ctx), e, ctx.fi, len(e.args) > 1 or bool(e.keywords))
+        if isinstance(f, ast.Name) and e.args:
+            # an element of the collection applied as a function: a stored bound method `re.compile(p).match` (its kind is read off
+            # the collection's build, see run())
+            po = self.origin(f, ctx)
+            if po[0] == "var":
+                return ("match", "apply", po, self.origin(e.args[0], ctx), e, ctx.fi, len(e.args) > 1 or bool(e.keywords))
         # the predicate itself (dispatch on the argument)
         if isinstance(f, ast.Attribute) and isinstance(f.value, ast.Name) and f.value.id == "self" and f.attr == self.pred and len(e.args) == 1:
             o = self.origin(e.args[0], ctx)
@@ -687,6 +696,8 @@ def run(repo: Repo, res: Result, rule: str, filter_cls: ClassInfo, pred: str) ->
         res.undecide(rule, base_key, "the predicate's implementation was not found", "")
         return info
     attr_iter: set[str] = set()
+    applied: set[str] = set()  # collections whose elements are called as functions (`m(s)`: stored bound methods)
+    direct: set[str] = set()  # collections whose elements are used as patterns (`re.match(p, s)` / `p.match(s)`)
     func_match = False  # pattern applied through re.match(p, s) (accepts str patterns) rather than p.match(s)
     for key, label, want_subject in (("str", "str", "param"), ("path", "Path", "str"), ("any", "", "either")):
         m = ov.get(key)
@@ -705,7 +716,7 @@ def run(repo: Repo, res: Result, rule: str, filter_cls: ClassInfo, pred: str) ->
             ms = matches_in(t)
             for mt in ms:
                 _k, kind, po, so, node, mfi, extra = mt
-                if kind != "match":
+                if kind not in ("match", "apply"):
                     bad = f"`{norm(node, 70)}` applies the patterns with {kind}: " + ("a pattern matches anywhere in the path, regex exclusions are no longer anchored at the start" if kind == "search" else "a pattern must match the whole path, 'anchored at the start' patterns with an open end no longer exclude")
                     break
                 if extra:
@@ -752,6 +763,7 @@ def run(repo: Repo, res: Result, rule: str, filter_cls: ClassInfo, pred: str) ->
             attr_iter.add(t[2][1])
             if t[3][4] is not None and lib_name(repo, t[3][5], t[3][4]) in REGEX_FUNCS:
                 func_match = True
+            (applied if t[3][1] == "apply" else direct).add(t[2][1])
         if bad is None and und is not None:
             res.undecide(rule, ckey, und, w)
             continue
@@ -778,10 +790,20 @@ def run(repo: Repo, res: Result, rule: str, filter_cls: ClassInfo, pred: str) ->
             if target is None:
                 fn = elt
                 fq = repo.resolve_name(init.module, fn) if isinstance(fn, (ast.Name, ast.Attribute)) else None
-                if fq != "re.compile":
+                if fq != "re.compile" or box in applied:
                     ok, detail = None, f"`{norm(node, 80)}` maps `{norm(fn, 40)}` over the patterns"
                     break
             else:
+                bound = None
+                if isinstance(elt, ast.Attribute) and elt.attr in REGEX_METHODS and isinstance(elt.value, ast.Call) and repo.resolve_name(init.module, elt.value.func) == "re.compile":
+                    # `re.compile(p).match`: the element is the pattern's bound method; calling it is `re.<method>(p, s)`
+                    bound, elt = elt.attr, elt.value
+                if (bound is not None) != (box in applied) or (box in applied and box in direct):
+                    ok, detail = None, (f"the collection holds bound `.{bound}` methods but its elements are used as patterns" if bound is not None else "the elements of the collection are called as functions, but they are not bound methods of compiled patterns (`re.compile(p).match`)")
+                    break
+                if bound is not None and bound != "match":
+                    ok, detail = False, f"`{norm(node, 80)}` keeps the patterns' `.{bound}` method, which the predicate applies: " + ("a pattern matches anywhere in the path, regex exclusions are no longer anchored at the start" if bound == "search" else "a pattern must match the whole path, 'anchored at the start' patterns with an open end no longer exclude")
+                    break
                 if isinstance(elt, ast.Name) and isinstance(target, ast.Name) and elt.id == target.id:
                     if not func_match:
                         ok, detail = None, "the patterns are stored uncompiled but applied with `<pattern>.match`"
